@@ -270,7 +270,8 @@ async def cancel_case(sh: Shard, rig, case, r, regime):
         if not was_done:
             sh.count("async_transfers_cancelled_in_flight" if not case.get("behind") else "async_transfers_cancelled_behind_another")
         after = spa.struct.status_block
-        mine = [i for i in installs if i[0] == start and i[1] == length] if not case.get("behind") else installs
+        # (the simulator answers in whole 39-byte segments: an install may be longer than asked)
+        mine = [i for i in installs if i[0] == start and i[1] >= length] if not case.get("behind") else installs
         if len(after) != 1024:
             sh.violation("C01:async:block-size", f"client block is {len(after)} bytes after a cancelled transfer", wit)
         else:
